@@ -5,6 +5,7 @@ import (
 	"reflect"
 	"strconv"
 	"strings"
+	"time"
 
 	"github.com/uhn/ggql/pkg/ggql"
 
@@ -42,6 +43,8 @@ type Query {
   labelRef: TagRef
   labelAlso: Tag
   odd: Thing
+  stamps: [Time]
+  levels: [Size]
   vari(xs: [String]): String
   triple: String
   sized(s: Size, l: [Size]): String
@@ -374,6 +377,11 @@ type Query struct {
 	// match it; what the library answers for it depends on which members are
 	// bound already, so only fixed requests ask for it and nothing is compared.
 	Odd interface{}
+	// Stamps / Levels are lists of leaf values whose stored form is not their
+	// output form (time.Time, ggql.Symbol); the application hands the same
+	// []interface{} to every request.
+	Stamps []interface{}
+	Levels []interface{}
 	// Chief is served by a second Go struct for the GraphQL type Keeper (other
 	// field order); only plain struct fields are ever selected beneath it.
 	Chief *KeeperAlt
@@ -730,6 +738,8 @@ func GenZoo(t *tape.Tape) *Query {
 	q.LabelRef = &Label{T: "rt" + q.Title, A: "ra" + q.Title}
 	q.LabelAlso = &Label{T: "at" + q.Title, A: "aa" + q.Title}
 	q.Odd = map[string]interface{}{"name": "odd"}
+	q.Stamps = []interface{}{time.Unix(1600000000, 0).UTC(), time.Unix(1600000500, 0).In(time.FixedZone("east", 3600)), nil}
+	q.Levels = []interface{}{ggql.Symbol("BIG"), "SMALL", ggql.Symbol("SMALL")}
 	q.Chief = &KeeperAlt{Rank: q.Boss.Rank, Age: q.Boss.Age + 1, Note: "alt", Name: "chief-" + q.Boss.Name}
 	for _, k := range q.Keepers {
 		if k == nil {
@@ -921,6 +931,10 @@ func zooField(q *Query, obj interface{}, name string, args map[string]interface{
 			return o.LabelAlso, nil
 		case "odd":
 			return o.Odd, nil
+		case "stamps":
+			return o.Stamps, nil
+		case "levels":
+			return o.Levels, nil
 		case "relay":
 			return relay(o, toInt64(args["n"])), nil
 		case "pick":
